@@ -69,8 +69,8 @@ def wrap_cell_func(func, parse_args=lambda *a: a, parse_kwargs=lambda **kw: kw):
     return functools.update_wrapper(wrapper, func)
 
 
-def format_output(rng, value):
-    return Ranges().set_value(rng, value)
+def format_output(rng, value, fit=False):
+    return Ranges().set_value(rng, value, fit)
 
 
 class Cell:
@@ -148,7 +148,10 @@ class Cell:
         return inputs.values()
 
     def _output_filters(self):
-        return functools.partial(format_output, self.range.ranges[0]),
+        # The result of a formula is fitted (not re-flowed) into its range.
+        return functools.partial(
+            format_output, self.range.ranges[0], fit=bool(self.func)
+        ),
 
     def add(self, dsp, context=None):
         nodes = set()
